@@ -102,6 +102,9 @@ def step (line : String) : String :=
       else "ok"
     s!"{mc}\t{ic}\t{verdict}"
   | "cycles" :: rest =>
+    -- a session that could not be set up (the input goroutine never reached its blocking post within
+    -- the failure time-out) is not judged
+    if impl == "incomplete" then "-\t-\t-" else
     -- the session run on the shutdown LTS, configured from the source facts (statement order of
     -- Suspend, Resume clearing `suspended`), under the scheduling policy the gate stands for
     let ops := ((kv rest "ops").getD "").toList
